@@ -30,6 +30,8 @@ static const cfg_t cfgs[] = {
     { "WW U0+X", 1, 0, 2, { ACT(A_U0, W, 1, 0), ACT(A_EXT, W, 1, 0) } },
     { "RW U0+U0 (yield in cs)", 1, 0, 2,
       { ACT(A_U0, R, 1, 1), ACT(A_U0, W, 1, 1) } },
+    { "W2RR rendezvous U0+U0+U0 (yield in cs)", 1, 1, 3,
+      { ACT(A_U0, W, 2, 1), ACT(A_U0, R, 1, 0), ACT(A_U0, R, 1, 0) } },
     { "W2R U1(2 rounds)+X", 1, 0, 2,
       { ACT(A_U1, W, 2, 0), ACT(A_EXT, R, 1, 0) } },
     { "RRW U0+U1+X", 1, 0, 3,
@@ -38,9 +40,9 @@ static const cfg_t cfgs[] = {
       { ACT(A_EXT, R, 1, 0), ACT(A_EXT, R, 1, 0) } },
     { "WRR rendezvous U1+U0+X", 1, 1, 3,
       { ACT(A_U1, W, 1, 0), ACT(A_U0, R, 1, 0), ACT(A_EXT, R, 1, 0) } },
-    /* ---- thorough ---- */
     { "RWW U0+U1+X", 1, 0, 3,
       { ACT(A_U0, R, 1, 0), ACT(A_U1, W, 1, 0), ACT(A_EXT, W, 1, 0) } },
+    /* ---- thorough ---- */
     { "WRR U1+U0+X", 0, 0, 3,
       { ACT(A_U1, W, 1, 0), ACT(A_U0, R, 1, 0), ACT(A_EXT, R, 1, 0) } },
     { "RR rendezvous U0+U0", 0, 1, 2,
@@ -60,8 +62,6 @@ static const cfg_t cfgs[] = {
       { ACT(A_U0, R, 1, 0), ACT(A_U1, R, 1, 0), ACT(A_EXT, R, 1, 0) } },
     { "WRR rendezvous X+U0+U1", 0, 1, 3,
       { ACT(A_EXT, W, 1, 0), ACT(A_U0, R, 1, 0), ACT(A_U1, R, 1, 0) } },
-    { "W2RR rendezvous U0+U0+U0 (yield in cs)", 0, 1, 3,
-      { ACT(A_U0, W, 2, 1), ACT(A_U0, R, 1, 0), ACT(A_U0, R, 1, 0) } },
 };
 
 static const cfg_t *C;
